@@ -42,12 +42,14 @@ Splittable(i) ==
     [] OTHER -> FALSE
 IsSimple(i) == out[i].k = "s" /\ out[i].l = 0
 Structural(i) == out[i].k \in (NOpeners \cup {"end", "endu", "enddo", "cont"})
+InJoin(i) == \E j \in 1..Len(ed) : ed[j].t = "join" /\ ed[j].pos \in {i, i - 1}
 HasEd(t, pos) == \E j \in 1..Len(ed) : ed[j].t = t /\ ed[j].pos = pos
 
 AddCmt ==
   /\ "cmt" \in PKinds
   /\ \E pos \in Ch(1..(N + 1)), place \in {1, 2, 3}, c \in Ch(1..NCmtCls) :
        /\ (place \in {2, 3} => pos <= N)
+       /\ ~InJoin(pos)
        /\ (place = 3 => Splittable(pos))
        /\ (place = 2 => out[pos].k # "format")
        /\ (place \in {2, 3} => ~HasEd("sent", pos) /\ ~HasEd("garb", pos))
@@ -85,6 +87,24 @@ AddSent ==
        /\ (c = 1 => Splittable(pos))
        /\ ed' = Append(ed, E("sent", pos, c, 0))
 
+\* free-form layout edits (C04): "brk" continuation of statement pos (a = where, b = variant:
+\* 0 plain &, 1 leading &, 2 comment after &, 3 blank line between, 4 comment line between, 5 both);
+\* "join" statement pos and pos+1 on one line with `;`; "case" change of letter case (a = style)
+AddLayout ==
+  \/ /\ "brk" \in PKinds
+     /\ \E pos \in Ch({i \in 1..N : Splittable(i)}), a \in {1, 2, 3}, b \in 0..5 :
+          /\ ~InJoin(pos) /\ ~HasEd("brk", pos)
+          /\ ~\E j \in 1..Len(ed) : ed[j].pos = pos /\ ed[j].t = "cmt" /\ ed[j].a \in {2, 3}
+          /\ ed' = Append(ed, E("brk", pos, a, b))
+  \/ /\ "join" \in PKinds
+     /\ \E pos \in Ch(1..(N - 1)) :
+          /\ out[pos + 1].l = 0 /\ out[pos + 1].k # "dol" /\ out[pos].k # "format"
+          /\ ~\E j \in 1..Len(ed) : ed[j].pos \in {pos, pos + 1} /\ ed[j].t \in {"brk", "join", "cmt"}
+          /\ ~\E j \in 1..Len(ed) : ed[j].pos = pos - 1 /\ ed[j].t = "join"
+          /\ ed' = Append(ed, E("join", pos, 0, 0))
+  \/ /\ "case" \in PKinds /\ ~\E j \in 1..Len(ed) : ed[j].t = "case"
+     /\ \E a \in {1, 2} : ed' = Append(ed, E("case", 0, a, 0))
+
 InsKinds == <<"if", "do", "selcase", "where", "forall", "assoc", "block", "crit", "type", "iface", "sub", "fun">>
 AddStruct ==
   /\ ed = <<>>
@@ -103,7 +123,7 @@ AddStruct ==
              /\ ed' = <<E("ren", pos, a, 0)>>
 
 PStep == /\ done /\ ~pd /\ Len(ed) < MaxEdits
-         /\ (AddCmt \/ AddCpp \/ AddGarb \/ AddInc \/ AddSent \/ AddStruct)
+         /\ (AddCmt \/ AddCpp \/ AddGarb \/ AddInc \/ AddSent \/ AddStruct \/ AddLayout)
          /\ UNCHANGED <<out, stack, done, needs08, nlab, nname, nunit, rich, pd>>
 PFinish == /\ done /\ ~pd /\ Len(ed) >= MinEdits /\ pd' = TRUE /\ UNCHANGED <<out, stack, done, needs08, nlab, nname, nunit, rich, ed>>
 
@@ -149,6 +169,8 @@ CppLines(f) == IF f \in {12, 13} THEN 2 ELSE 1          \* backslash-continued f
 PreLines(i) == LET js == {j \in 1..Len(ed) : ed[j].pos = i /\ ((ed[j].t = "cmt" /\ ed[j].a = 1) \/ ed[j].t = "cpp")} IN
                Cardinality(js) + Cardinality({j \in js : ed[j].t = "cpp" /\ CppLines(ed[j].a) = 2})
 StmtLines(i) == IF \E j \in 1..Len(ed) : ed[j].t = "cmt" /\ ed[j].pos = i /\ ed[j].a = 3 THEN 3
+                ELSE IF \E j \in 1..Len(ed) : ed[j].t = "brk" /\ ed[j].pos = i
+                     THEN (IF \E j \in 1..Len(ed) : ed[j].t = "brk" /\ ed[j].pos = i /\ ed[j].b \in {3, 4, 5} THEN 3 ELSE 2)
                 ELSE IF \E j \in 1..Len(ed) : ed[j].t = "garb" /\ ed[j].pos = i THEN 1 + (CHOOSE b \in 0..2 : \E j \in 1..Len(ed) : ed[j].t = "garb" /\ ed[j].pos = i /\ ed[j].b = b)
                 ELSE 1
 RECURSIVE LastLine(_)
